@@ -17,8 +17,8 @@ def cfgs():
     srv_ec = "keys ks id=%s ca=%s tickets=1" % (EC[0], EC[1])
     cli_ec = "keys kc ca=%s" % EC[1]
     C = []
-    def add(name, ks, kc, so, co, resume=False, fam="L"):
-        C.append(dict(name=name, ks=ks, kc=kc, so=so, co=co, resume=resume, fam=fam))
+    def add(name, ks, kc, so, co, resume=False, fam="L", early=False):
+        C.append(dict(name=name, ks=ks, kc=kc, so=so, co=co, resume=resume, fam=fam, early=early))
     add("T12-ecdhe-rsa-gcm", srv_rsa, cli_rsa, "ver=T12", "ver=T12 suites=0xc02f")
     add("T12-rsa-cbc-sha256", srv_rsa, cli_rsa, "ver=T12", "ver=T12 suites=0x3c")
     add("T12-ecdhe-ecdsa-cbc", srv_ec, cli_ec, "ver=T12", "ver=T12 suites=0xc023")
@@ -32,6 +32,8 @@ def cfgs():
     add("T13-full-ec-chacha", srv_ec, cli_ec, "ver=T13", "ver=T13 suites=0x1303", fam="T13")
     add("T13-psk-resumed", srv_rsa, cli_rsa, "ver=T13", "ver=T13 sid=R", resume=True, fam="T13")
     add("T13-cauth", srv_rsa, cli_rsa_id, "ver=T13 cb=strict", "ver=T13", fam="T13")
+    add("T13-early-accepted", srv_rsa, cli_rsa, "ver=T13 early=16384", "ver=T13 sid=R", resume=True, fam="T13", early=True)
+    add("T13-early-rejected", srv_rsa + " psk13=1 early=16384", cli_rsa + " psk13=1 early=16384", "ver=T13 early=16384", "ver=T13", fam="T13", early=True)
     add("T13cap-neg12", srv_rsa, cli_rsa, "ver=T12", "ver=T11,T12,T13", fam="L")
     add("srv13cap-neg12", srv_rsa, cli_rsa, "ver=T11,T12,T13", "ver=T12 suites=0xc02f", fam="L")
     add("D12-ecdhe-rsa-gcm", srv_rsa, cli_rsa, "ver=D12", "ver=D12 suites=0xc02f")
@@ -48,6 +50,9 @@ def actions(tier):
     A.append(("plain-app0", ["injectrec {X} 0 23 0"]))
     for h in HS_TYPES:
         A.append(("plain-hs-%d" % h, ["injectrec {X} 0 22 8 body=%02x000004aabbccdd" % h]))
+    for h in HS_TYPES:
+        A.append(("plain-hs-empty-%d" % h, ["injectrec {X} 0 22 4 body=%02x000000" % h]))
+        A.append(("forge-hs-empty-%d" % h, ["forge {X} 0 22 4 hs=%d" % h]))
     A.append(("plain-ccs", ["injectrec {X} 0 20 1 body=01"]))
     A.append(("plain-ccs-bad", ["injectrec {X} 0 20 1 body=02"]))
     A.append(("plain-alert-fatal", ["injectrec {X} 0 21 2 body=0228"]))
@@ -104,6 +109,8 @@ def episode_lines(cfg, k, target, act, cont, eid, dtls=False):
         L += ["new s9 server keys=ks %s" % cfg["so"], "new c9 client keys=kc %s" % cfg["co"], "link c9 s9",
               "pump c9 s9 max=40", "send c9 3", "pump c9 s9 max=5", "close c9", "pump c9 s9 max=5", "del c9", "del s9"]
     L += ["new s0 server keys=ks %s" % cfg["so"], "new c0 client keys=kc %s" % cfg["co"], "link c0 s0"]
+    if cfg.get("early"):
+        L += ["send c0 12", "send c0 30"]       # TLS 1.3 early data right behind the ClientHello
     if k > 0:
         L.append("pump c0 s0 max=%d" % k)
     else:
